@@ -34,8 +34,12 @@ impl Intersect for Line2 {
         //
         let u_b = other.dy() * self.dx() - other.dx() * self.dy();
         // Where u_b == 0 the two lines are parallel. In this case we don't need any further checks
-        // since we are only concerned with lines that cross, parallel is fine.
-        if u_b == 0. {
+        // since we are only concerned with lines that cross, parallel is fine. Lines are only
+        // found to be parallel to within the rounding of the calculation, which is relative to
+        // the lengths of the two lines.
+        let lengths = f64::sqrt(self.dx().powi(2) + self.dy().powi(2))
+            * f64::sqrt(other.dx().powi(2) + other.dy().powi(2));
+        if u_b.abs() <= Self::TOLERANCE * lengths {
             return false;
         }
 
@@ -46,8 +50,14 @@ impl Intersect for Line2 {
 
         let ua = ua_t / u_b;
         let ub = ub_t / u_b;
-        // Should the points ua, ub both lie on the interval [0, 1] the lines intersect.
-        if 0. <= ua && ua <= 1. && 0. <= ub && ub <= 1. {
+        // Should the points ua, ub both lie on the interval [0, 1] the lines intersect. The end of
+        // a line touching another line is an intersection, which has to allow for the rounding
+        // of the calculation to be found reliably.
+        if -Self::TOLERANCE <= ua
+            && ua <= 1. + Self::TOLERANCE
+            && -Self::TOLERANCE <= ub
+            && ub <= 1. + Self::TOLERANCE
+        {
             return true;
         }
         false
@@ -83,6 +93,9 @@ impl fmt::Display for Line2 {
 }
 
 impl Line2 {
+    /// The relative precision to which the intersection of two lines is calculated.
+    const TOLERANCE: f64 = 1e-12;
+
     pub fn new(start: (f64, f64), end: (f64, f64)) -> Self {
         Self {
             start: Point2::new(start.0, start.1),
